@@ -9,5 +9,6 @@ TemplatesV ==
   { TSell(a, q, <<7, 0>>, Z) : a \in {"", "Spouse"}, q \in {q1, q2} } \cup
   { TSell("", q1, <<12, 0>>, Z), TSell("(R)", q1, <<7, 0>>, Z) }
 GapsV == {0, 1, 29, 30, 31}
+SplitRatiosV == {<<2, 1>>, <<1, 2>>, <<3, 2>>, <<1, 3>>}
 OpeningsV == {<<>>}
 =============================================================================
